@@ -300,6 +300,32 @@ func properties() map[string]*PropertyDef {
 		LevelNote:   "see assumptions; trusted: go/ssa lowering, govc encoding, solvers",
 		Technique:   "contract-based deductive verification (govc): ghost event log, loop invariants, frame conditions, WP over go/ssa, z3/cvc5",
 	})
+	ps = append(ps, &PropertyDef{
+		ID:       "C18",
+		Patterns: []string{"./service", "./osutil"},
+		Funcs: []string{"osutil.isShutdownSignal", "osutil.IsShutdownSignal", "service.(*SignalHandler).shutdown", "service.(*SignalHandler).Handle",
+			"service.(*RefreshWorker).refresh", "service.(*RefreshWorker).Shutdown", "service.(*RefreshWorker).refreshInALoop"},
+		Kinds: map[string]bool{"ensures": true, "invariant": true, "requires": true, "recovers": true, "frame": true, "nil": true, "bounds": true, "variant": true},
+		NeedsClauses: map[string][]string{
+			"osutil.isShutdownSignal":            {"shutdown_signals"},
+			"service.(*SignalHandler).shutdown":  {"every_service_once", "reverse_order", "success_iff_all_nil", "count", "order", "status_so_far"},
+			"service.(*SignalHandler).Handle":    {"on_panic/success_only_after_complete_shutdown", "only_on_shutdown_signal", "all_shut_down", "reverse_order", "success_iff_all_nil", "nothing_before_shutdown_signal", "ignored_so_far"},
+			"service.(*RefreshWorker).refresh":   {"two_calls", "context_from_constructor", "refreshes_with_it", "returns_its_error"},
+			"service.(*RefreshWorker).Shutdown":  {"no_refresh_unless_configured", "final_refresh_once"},
+			"service.(*RefreshWorker).refreshInALoop": {"wait_is_latest_schedule_answer", "delay_from_schedule", "schedule_asked_with_now", "refresh_after_timer",
+				"refresh_with_new_context", "handler_gets_the_error", "every_error_handled_once", "reschedules_after_refresh", "timer_leads_to_refresh"},
+		},
+		Assumptions: []string{
+			"PARTIAL CLAIM. Decided for SignalHandler (ghost event log over the real loops): signals for which IsShutdownSignal is false cause no call on any service; after the first shutdown signal every registered service's Shutdown is called exactly once, last registered first, regardless of earlier errors; the status is success exactly when every call returned nil; if a service panics the recovered Handle does not report success (named result at every point where foreign code runs); IsShutdownSignal is exactly SIGINT/SIGQUIT/SIGTERM",
+			"Decided for RefreshWorker, single-goroutine view: every Refresh uses a context obtained from the constructor on the worker's context; each Refresh error is handed to the ErrorHandler immediately and exactly once, nil errors never; after each refresh the clock and the schedule are consulted and the next timer uses exactly that answer; Shutdown refreshes once iff RefreshOnShutdown and returns an error iff that refresh failed",
+			"NOT decided (outside contracts on sequential code): that the timer fires once per elapsed interval, the interleaving of Shutdown with the worker goroutine ('after Shutdown refreshes no more'), closing the done channel twice; channel receives and select are modelled as arbitrary choices",
+			"assumed: interface methods (services, refresher, clock, schedule, handler, context constructor) and the cancel functions do not modify the handler's / worker's fields; context.WithTimeout's cancel function does not panic",
+		},
+		Explanation: "loop invariants over a ghost log of interface calls; an exceptional postcondition (recovers) evaluated wherever code outside the contracts may panic",
+		LevelText:   "proof (partial): shutdown order/completeness/status and panic edge for all service lists and signal sequences; call protocol of the refresh loop; timing and interleavings not decided",
+		LevelNote:   "see assumptions; trusted: go/ssa lowering, govc encoding, solvers",
+		Technique:   "contract-based deductive verification (govc): ghost event log, loop invariants, exceptional postcondition, WP over go/ssa, z3/cvc5",
+	})
 	out := map[string]*PropertyDef{}
 	for _, p := range ps {
 		out[p.ID] = p
